@@ -32,23 +32,67 @@ const benign = "zz"
 
 // ---- payloads ----
 
-type payload struct{ name, s string }
+type payload struct {
+	name, s string
+	// edge: the value is shown exactly as given (a letter with a separator at
+	// ONE end), neither bare nor wrapped between two letters.
+	edge bool
+}
 
 var payloads = []payload{
-	{"dquote", `"`},
-	{"squote", `'`},
-	{"lt", `<`},
-	{"gt", `>`},
-	{"end-script", `</script>`},
-	{"end-html-comment", `-->`},
-	{"end-block-comment", `*/`},
-	{"newline", "\n"},
-	{"space", ` `},
-	{"equals", `=`},
-	{"backquote", "`"},
-	{"backslash", `\`},
-	{"entity-quot", `&quot;`},
-	{"javascript-scheme", `javascript:`},
+	{name: "dquote", s: `"`},
+	{name: "squote", s: `'`},
+	{name: "lt", s: `<`},
+	{name: "gt", s: `>`},
+	{name: "end-script", s: `</script>`},
+	{name: "end-html-comment", s: `-->`},
+	{name: "end-block-comment", s: `*/`},
+	{name: "newline", s: "\n"},
+	{name: "space", s: ` `},
+	{name: "equals", s: `=`},
+	{name: "backquote", s: "`"},
+	{name: "backslash", s: `\`},
+	{name: "entity-quot", s: `&quot;`},
+	{name: "javascript-scheme", s: `javascript:`},
+}
+
+// edgePayloads are values that END or START with a separator; with the bare
+// and wrapped forms of the separators they are the payloads of the two-shows
+// spaces, where what a value ends with meets what the next show starts with.
+var edgePayloads = []payload{
+	{"ends-with-newline", "z\n", true},
+	{"starts-with-newline", "\nz", true},
+	{"ends-with-two-newlines", "z\n\n", true},
+	{"starts-with-space", " z", true},
+	{"ends-with-space", "z ", true},
+	{"ends-with-tab", "z\t", true},
+	{"ends-with-backslash", "z\\", true},
+	{"ends-with-dquote", "z\"", true},
+	{"ends-with-squote", "z'", true},
+	{"ends-with-lt", "z<", true},
+	{"ends-with-backquote", "z`", true},
+}
+
+// edgeClass is the name used in failure keys for a value with a separator at
+// one end (the exact value is in the detail).
+func edgeClass(val string) string {
+	c := val[0]
+	if c == 'z' || c == 'u' {
+		c = val[len(val)-1]
+	}
+	switch c {
+	case '\n':
+		return "newline-at-edge"
+	case ' ', '\t':
+		return "space-at-edge"
+	case '"', '\'', '`':
+		return "quote-at-end"
+	case '\\':
+		return "backslash-at-end"
+	case '<':
+		return "lt-at-end"
+	}
+	return "benign"
 }
 
 // ---- formats ----
@@ -257,6 +301,11 @@ type listDoc struct {
 	// structure oracle, so that state carried from one element into the next is
 	// keyed as such and not as whatever desync it causes).
 	elementState bool
+	// two-shows documents: the document has a second show, of the global u,
+	// whose value is uVal for all the runs of the document. twoShows is
+	// "hole-first" (the hole is followed by {{ u }}, u benign) or "hole-second"
+	// (the hole follows {{ u }}, which ends or starts with a separator).
+	twoShows, uVal, uName, position string
 }
 
 type docList []listDoc
@@ -304,6 +353,122 @@ func elementStateDocs() docList {
 				d.first, d.second = p, o
 			}
 			docs = append(docs, d)
+		}
+	}
+	return docs
+}
+
+// lookalikeDocs enumerates near-miss end tags and openers inside raw-text
+// elements: the look-alike is placed in the text of a script or style element
+// (as code, in a string of each kind, in a comment of each kind), and the
+// hole comes later IN THE SAME element, in code or in a string. Whether the
+// look-alike ends the element is decided by the reference tokenizer; the
+// lexer under test must agree. A second family puts comment and CDATA
+// look-alikes in HTML content before an element opener.
+func lookalikeDocs() docList {
+	lookalikes := []string{
+		"</scriptx>", "</scripts>", "</scriptlet>", "</script", "</script\n>", "</script/>", "</SCRIPT>", "</ScRiPt >", "</script >",
+		"</styles>", "</stylesheet>", "</STYLE>", "</style", "</style\n>", "</style/>", "</StYlE >",
+		"</textareas>", "</titles>", "</textarea>", "</title>", "<scriptx>", "<styles>", "<script>", "<style>",
+		"--!>", "<!-->", "<!--->", "<!--", "-->", "<![CDATA[", "]]>",
+	}
+	// The wraps keep the script lexically valid around the look-alike: as code,
+	// "x = 1 </scriptx>/ 2;" is 1 < /scriptx>/ 2 (a closed regular expression),
+	// "x = 1 </script/> 2;" is 1 < /script/ > 2 and "x = 1 <scriptx> 2;" is a
+	// chain of comparisons.
+	type wrap struct {
+		pre, post string
+		oneLine   bool // the wrap cannot hold a look-alike with a newline
+	}
+	code := func(l string) wrap {
+		if strings.Count(l, "/") == 1 {
+			return wrap{"x = 1 ", "/ 2; ", false}
+		}
+		return wrap{"x = 1 ", " 2; ", false}
+	}
+	scriptWraps := []wrap{{`var s = "`, `"; `, true}, {"var s = '", "'; ", true}, {"var s = `", "`; ", false}, {"// ", "\n", true}, {"/* ", " */ ", false}}
+	styleWraps := []wrap{{"", " ", false}, {`a{b:"`, `"} `, true}, {"a{b:'", "'} ", true}, {"/* ", " */ ", false}, {"a{b:url(", ")} ", true}}
+	scriptHoles := []string{"var u = ", `var u = "`, "var u = '"}
+	styleHoles := []string{"c{d:", `c{d:"`}
+	var docs docList
+	for _, l := range lookalikes {
+		for _, w := range append([]wrap{code(l)}, scriptWraps...) {
+			if w.oneLine && strings.Contains(l, "\n") {
+				continue
+			}
+			for _, h := range scriptHoles {
+				docs = append(docs, listDoc{pre: "<script>" + w.pre + l + w.post + h})
+			}
+		}
+		for _, w := range styleWraps {
+			if w.oneLine && strings.Contains(l, "\n") {
+				continue
+			}
+			for _, h := range styleHoles {
+				docs = append(docs, listDoc{pre: "<style>" + w.pre + l + w.post + h})
+			}
+		}
+	}
+	// look-alikes in HTML content, then an opener
+	dataPrefixes := []string{
+		"<!-->", "<!--->", "<!--x--!>", "<!--x--!><p>", "<!-- x --", "<!--x--->", "<!---x-->",
+		"<![CDATA[x]]>", "<![CDATA[<p>", "<![CDATA[x]]>x>", "<scriptx>", "<styles>", "<scriptx>x</scriptx>", "</script>", "</style>",
+		"<textarea></textareas>", "<title></titles>", "<textarea></TEXTAREA >", "<title></title/>",
+	}
+	openers := []string{
+		`<script>var a = "`, "<script>var a = ", `<style>a{b:"`, "<style>a{b:", `<a title="`, "<a title=", `<a href="`, "<p>",
+	}
+	for _, d := range dataPrefixes {
+		for _, o := range openers {
+			docs = append(docs, listDoc{pre: d + o})
+		}
+	}
+	return docs
+}
+
+// twoShowsDocs enumerates documents with TWO shows on one line, adjacent or
+// separated by a space or by text, in every position of the format. In the
+// "hole-first" documents the hole is the first show and the second one shows
+// a benign value; in the "hole-second" documents the first show has a fixed
+// value that ends (or starts) with a separator and the hole is the second.
+func twoShowsDocs(format string) docList {
+	type pos struct{ name, pre, post string }
+	var positions []pos
+	seps := []string{"", " ", "x", " x "}
+	if format == "md" {
+		positions = []pos{
+			{"indented-code-spaces", "    ", "\n"}, {"indented-code-spaces-after-paragraph", "x\n\n    ", "\nx\n"}, {"indented-code-second-line", "    x\n    ", "\n    x\n"},
+			{"indented-code-tab", "\t", "\n"}, {"indented-code-tab-second-line", "\tx\n\t", "\n\tx\n"},
+			{"fenced-code", "```\n", "\n```\nx\n"}, {"fenced-code-info", "```", "\nx\n```\n"},
+			{"paragraph", "", "\n"}, {"paragraph-middle", "x ", " x\nx\n"},
+			{"list-item", "- ", "\n- x\n"}, {"ordered-list-item", "1. ", "\n2. x\n"}, {"blockquote", "> ", "\n> x\n"}, {"heading", "# ", "\nx\n"},
+			{"link-text", "[", "](/x)\n"}, {"link-destination", "[x](", ")\n"}, {"link-title", "[x](/x \"", "\")\n"},
+			{"inline-code", "`", "`\n"}, {"bare-url", "http://x/", "\n"}, {"html-attribute", "<a title=\"", "\">\n"}, {"html-block-text", "<div>\n", "\n</div>\n"},
+		}
+	} else {
+		positions = []pos{
+			{"text", "<p>", "</p>"}, {"textarea", "<textarea>", "</textarea>"}, {"comment", "<!-- ", " -->"},
+			{"attr-dq", `<a title="`, `">`}, {"attr-sq", "<a title='", "'>"}, {"attr-unquoted", "<a title=", ">"},
+			{"url-attr-dq", `<a href="`, `">`}, {"url-attr-unquoted", "<a href=", ">"}, {"url-attr-query", `<a href="/a?b=`, `">`}, {"srcset-dq", `<img srcset="`, `">`},
+			{"tag", "<a ", ">"},
+			{"script-string-dq", `<script>var a = "`, `";</script>`}, {"script-string-sq", "<script>var a = '", "';</script>"},
+			{"script-code", "<script>var a = [", "];</script>"}, {"script-line-comment", "<script>// ", "\nvar a = 1;</script>"},
+			{"json-string", `<script type="application/ld+json">{"a":"`, `"}</script>`}, {"json-value", `<script type="application/ld+json">[`, `]</script>`},
+			{"style-string", `<style>a{b:"`, `"}</style>`}, {"style-code", "<style>a{b:", "}</style>"},
+		}
+		seps = []string{"", " ", "x", ", "}
+	}
+	firsts := []struct{ name, val string }{
+		{"benign", "uu"}, {"newline", "u\n"}, {"two-newlines", "u\n\n"}, {"leading-newline", "\nu"}, {"space", "u "}, {"leading-space", " u"}, {"tab", "u\t"},
+		{"backslash", "u\\"}, {"dquote", "u\""}, {"squote", "u'"}, {"lt", "u<"}, {"backquote", "u`"},
+	}
+	var docs docList
+	for _, p := range positions {
+		for _, sep := range seps {
+			docs = append(docs, listDoc{pre: p.pre, post: sep + "{{ u }}" + p.post, twoShows: "hole-first", uVal: "uu", uName: "benign", position: p.name})
+			for _, f := range firsts {
+				docs = append(docs, listDoc{pre: p.pre + "{{ u }}" + sep, post: p.post, twoShows: "hole-second", uVal: f.val, uName: f.name, position: p.name})
+			}
 		}
 	}
 	return docs
@@ -445,7 +610,7 @@ func holeContexts(tree *ast.Tree) (hole, inner string) {
 				}
 			case *ast.Show:
 				if len(n.Expressions) == 1 {
-					if id, ok := n.Expressions[0].(*ast.Identifier); ok && (id.Name == "w" || id.Name == "w2") {
+					if id, ok := n.Expressions[0].(*ast.Identifier); ok && (id.Name == "w" || id.Name == "w2" || id.Name == "u") {
 						return true // the fixed benign show of the pair documents
 					}
 				}
@@ -557,8 +722,12 @@ func compatible(ref, lex string) bool {
 	return false
 }
 
-func buildEntry(f *formatSpec, m *mode, kinds []valueKind, pre, post string) *entry {
+func buildEntry(f *formatSpec, m *mode, kinds []valueKind, pre, post string, uVal ...string) *entry {
 	e := &entry{}
+	u := "uu"
+	if len(uVal) > 0 {
+		u = uVal[0]
+	}
 	for _, k := range kinds {
 		v := &variant{kind: k.name}
 		e.variants = append(e.variants, v)
@@ -573,7 +742,7 @@ func buildEntry(f *formatSpec, m *mode, kinds []valueKind, pre, post string) *en
 		ptr, set := k.decl()
 		v.set = set
 		opts := &scriggo.BuildOptions{
-			Globals: native.Declarations{"v": ptr, "w": &wBenign, "w2": &w2Benign},
+			Globals: native.Declarations{"v": ptr, "w": &wBenign, "w2": &w2Benign, "u": &u},
 			ExpandedTransformer: func(tree *ast.Tree) error {
 				v.lexCtx, v.innerCtx = holeContexts(tree)
 				return nil
@@ -664,6 +833,17 @@ func isPunct(c byte) bool {
 // between two letters.
 func (sd *spaceDef) attacks(pl payload) []attack {
 	var as []attack
+	if pl.edge {
+		at := attack{edgeClass(pl.s), pl.s, benign}
+		c := pl.s[0]
+		if c == 'z' {
+			c = pl.s[len(pl.s)-1]
+		}
+		if sd.f.name == "md" && isPunct(c) {
+			at.benign = "" // a punctuation end: chosen by mdBenign
+		}
+		return []attack{at}
+	}
 	wrapped := attack{"z+" + pl.name + "+z", "z" + pl.s + "z", benign}
 	bare := attack{pl.name, pl.s, benign}
 	if sd.f.name == "md" {
@@ -774,6 +954,8 @@ type spaceDef struct {
 	m     *mode
 	kinds []valueKind
 	docs  docSource
+	// pls is the payload list of the space.
+	pls []payload
 	// wrapAll: also test "z"+payload+"z" for every payload (else only for the
 	// separator payloads newline, space, equals).
 	wrapAll bool
@@ -784,10 +966,13 @@ var cache resultCache
 var ballast []byte
 
 func (sd *spaceDef) eval(spaceID int, i uint64) kit.Outcome {
-	np := uint64(len(payloads))
+	np := uint64(len(sd.pls))
 	doc := i / np
 	r := cache.get(uint64(spaceID)<<48|doc, func() *docResult {
 		pre, post := sd.docs.at(doc)
+		if l, ok := sd.docs.(docList); ok && l[doc].twoShows != "" {
+			return sd.evalTwoShows(l[doc])
+		}
 		e := buildEntry(sd.f, sd.m, sd.kinds, pre, post)
 		var direct *entry
 		if sd.m.name != "direct" {
@@ -800,7 +985,7 @@ func (sd *spaceDef) eval(spaceID int, i uint64) kit.Outcome {
 		// are clean when the value is shown directly.
 		directFails, directOps := false, 0
 		if direct != nil {
-			for _, pl := range payloads {
+			for _, pl := range sd.pls {
 				d := sd.evalEntry(direct, pl)
 				directOps += d.Ops
 				directFails = directFails || !d.OK
@@ -812,7 +997,7 @@ func (sd *spaceDef) eval(spaceID int, i uint64) kit.Outcome {
 			ld = l[doc]
 			twin = buildEntry(sd.f, sd.m, sd.kinds, ld.alonePre, post)
 		}
-		for _, pl := range payloads {
+		for _, pl := range sd.pls {
 			var o kit.Outcome
 			if twin != nil && ld.elementState {
 				d := kit.Outcome{OK: true}
@@ -833,12 +1018,131 @@ func (sd *spaceDef) eval(spaceID int, i uint64) kit.Outcome {
 			if !o.OK && directFails {
 				o = kit.Outcome{OK: true, Nontrivial: true, Ops: o.Ops, Class: "changed-also-when-shown-directly(reported-by-the-direct-space)"}
 			}
-			o.Ops += directOps / len(payloads)
+			o.Ops += directOps / len(sd.pls)
 			r.outcomes = append(r.outcomes, o)
 		}
 		return r
 	})
 	return r.outcomes[i%np]
+}
+
+// evalTwoShows evaluates a document with two shows.
+//
+// hole-first: the usual structure oracle; the keys get "two-shows hole=first".
+//
+// hole-second: the first show has the fixed value ld.uVal. (1) What follows
+// the first value must render as it does when the first value is benign: the
+// second hole's rendering must not depend on what the first value ended with.
+// (2) The usual structure oracle for the hole; a failure is charged to the
+// first value's ending only if the same document with a benign first value
+// is clean for the payload.
+func (sd *spaceDef) evalTwoShows(ld listDoc) *docResult {
+	e := buildEntry(sd.f, sd.m, sd.kinds, ld.pre, ld.post, ld.uVal)
+	r := &docResult{files: e.files}
+	// the same document with the other show replaced by the text it renders
+	// when benign: what fails there too is not a matter of two shows and is
+	// reported under the plain key
+	single := buildEntry(sd.f, sd.m, sd.kinds, strings.ReplaceAll(ld.pre, "{{ u }}", "uu"), strings.ReplaceAll(ld.post, "{{ u }}", "uu"))
+	var ref *entry
+	suffix := " two-shows hole=first"
+	if ld.twoShows == "hole-second" {
+		suffix = " two-shows first-value=" + edgeClass(ld.uVal)
+		if ld.uVal != "uu" {
+			ref = buildEntry(sd.f, sd.m, sd.kinds, ld.pre, ld.post, "uu")
+			// When the first value alone already changes the structure of the
+			// document (the hole showing the benign value), the document is
+			// another one and says nothing about the second show: that change is
+			// reported by the hole-first documents.
+			if v, t := e.variants[0], ref.variants[0]; v.status == "" && t.status == "" {
+				bu, bf := t.base(benign), v.base(benign)
+				if bu.status == "" && bf.status == "" {
+					slotU := -1
+					for i, l := range bu.leaves {
+						if strings.Contains(l.Text, "uu") {
+							slotU = i
+						}
+					}
+					if eff, _ := diff(bu.leaves, bf.leaves, slotU); slotU >= 0 && eff != "" && eff != "vanished" {
+						for range sd.pls {
+							r.outcomes = append(r.outcomes, kit.Outcome{OK: true, Nontrivial: true, Ops: 2, Class: "first-value-already-changes-the-structure(reported-by-the-hole-first-documents)"})
+						}
+						return r
+					}
+				}
+			}
+		}
+	}
+	for _, pl := range sd.pls {
+		if ref != nil {
+			if d := sd.afterFirstValue(e, ref, ld, pl); d != nil {
+				d.Key += suffix
+				r.outcomes = append(r.outcomes, *d)
+				continue
+			}
+		}
+		o := sd.evalEntry(e, pl)
+		if !o.OK {
+			ops := o.Ops
+			if ref != nil {
+				if b := sd.evalEntry(ref, pl); !b.OK {
+					o = kit.Outcome{OK: true, Nontrivial: true, Class: "changed-also-when-the-first-value-is-benign(reported-there)"}
+				}
+			}
+			if !o.OK {
+				if b := sd.evalEntry(single, pl); !b.OK {
+					if !pl.edge {
+						// bare and wrapped payloads in single-show documents are the
+						// business of the other spaces
+						o = kit.Outcome{OK: true, Nontrivial: true, Class: "changed-also-with-a-single-show(not-a-matter-of-two-shows)"}
+					} else {
+						o = b // reported under the plain key
+						o.Detail = "(the same happens in the two-shows document " + quoteFiles(e.files) + ")\n" + o.Detail
+					}
+				} else {
+					o.Key += suffix
+					o.Detail = fmt.Sprintf("position %s, other show {{ u }} = %q; the document with the text uu in place of {{ u }} is clean\n%s", ld.position, ld.uVal, o.Detail)
+				}
+			}
+			o.Ops += ops + 2
+		}
+		r.outcomes = append(r.outcomes, o)
+	}
+	return r
+}
+
+// afterFirstValue checks that everything after the rendering of the first
+// value is the same as when the first value is benign.
+func (sd *spaceDef) afterFirstValue(e, ref *entry, ld listDoc, pl payload) *kit.Outcome {
+	v, t := e.variants[0], ref.variants[0]
+	if v.status != "" || t.status != "" {
+		return nil
+	}
+	vals := []string{benign}
+	for _, at := range sd.attacks(pl) {
+		vals = append(vals, at.val)
+	}
+	for _, val := range vals {
+		out, err1 := run(v, val)
+		base, err2 := run(t, val)
+		if err1 != nil || err2 != nil {
+			continue
+		}
+		k := strings.LastIndex(base, "uu")
+		if k < 0 {
+			continue
+		}
+		if rest := base[k+2:]; !strings.HasSuffix(out, rest) {
+			what := "payload=" + pl.name
+			if val == benign {
+				what = "benign-value"
+			}
+			return &kit.Outcome{Nontrivial: true, Ops: 2, Class: "SECOND-SHOW-DEPENDS-ON-FIRST",
+				Key: fmt.Sprintf("fmt=%s mode=direct second show renders differently after a first value with this ending than after a benign one lexer-ctx=%s %s", sd.f.name, v.lexCtx, what),
+				Detail: fmt.Sprintf("files:\n%sfirst show {{ u }} = %q, hole value %q\nrendering                 %q\nwith the first value \"uu\" %q\n(what follows \"uu\" must be a suffix of the rendering)",
+					quoteFiles(e.files), ld.uVal, val, out, base)}
+		}
+	}
+	return nil
 }
 
 // differential checks that the hole renders in the pair document exactly as
@@ -995,14 +1299,18 @@ func (sd *spaceDef) evalEntry(e *entry, pl payload) kit.Outcome {
 }
 
 func (sd *spaceDef) describe(i uint64) any {
-	np := uint64(len(payloads))
+	np := uint64(len(sd.pls))
 	pre, post := sd.docs.at(i / np)
-	return map[string]any{
+	d := map[string]any{
 		"format":  sd.f.name,
 		"mode":    sd.m.name,
 		"files":   sd.m.files(sd.f.name, pre, post+sd.f.tail, "v"),
-		"payload": payloads[i%np].s,
+		"payload": sd.pls[i%np].s,
 	}
+	if l, ok := sd.docs.(docList); ok && l[i/np].twoShows != "" {
+		d["u"] = l[i/np].uVal
+	}
+	return d
 }
 
 func spaces(tier string) []kit.Space {
@@ -1029,12 +1337,22 @@ func spaces(tier string) []kit.Space {
 	defs = append(defs,
 		&spaceDef{name: "html/direct/element-end-states", f: html, m: &modes[0], kinds: valueKinds[:1], docs: elementStateDocs(), wrapAll: wrap},
 		&spaceDef{name: "html/direct/attribute-pairs", f: html, m: &modes[0], kinds: valueKinds[:1], docs: attributePairDocs(), wrapAll: wrap})
+	md := &formats[4]
+	twoPls := append(append([]payload{}, payloads...), edgePayloads...)
+	defs = append(defs,
+		&spaceDef{name: "html/direct/raw-text-lookalikes", f: html, m: &modes[0], kinds: valueKinds[:1], docs: lookalikeDocs(), wrapAll: wrap},
+		&spaceDef{name: "md/direct/raw-text-lookalikes", f: md, m: &modes[0], kinds: valueKinds[:1], docs: lookalikeDocs(), wrapAll: wrap},
+		&spaceDef{name: "html/direct/two-shows", f: html, m: &modes[0], kinds: valueKinds[:1], docs: twoShowsDocs("html"), pls: twoPls, wrapAll: wrap},
+		&spaceDef{name: "md/direct/two-shows", f: md, m: &modes[0], kinds: valueKinds[:1], docs: twoShowsDocs("md"), pls: twoPls, wrapAll: wrap})
 	var out []kit.Space
 	for id, sd := range defs {
 		id, sd := id, sd
+		if sd.pls == nil {
+			sd.pls = payloads
+		}
 		out = append(out, kit.Space{
 			Name:     sd.name,
-			Size:     sd.docs.size() * uint64(len(payloads)),
+			Size:     sd.docs.size() * uint64(len(sd.pls)),
 			Eval:     func(i uint64) kit.Outcome { return sd.eval(id, i) },
 			Describe: sd.describe,
 		})
@@ -1058,6 +1376,12 @@ func main() {
 			"html/direct/element-end-states = (up to two elements or attributes ending in every lexer state: inside // or /* comments, strings, template/regex literals, URLs, unterminated quotes) x (13 atoms that open a script/style/JSON/attribute up to a value position) x hole; " +
 			"html/direct/attribute-pairs = two attributes, the first showing a fixed benign global (w, or w2 with a query string), the second holding the hole, each in {double, single, un}quoted x {show, text+show, query+show, show+query}, in two tags or one, " +
 			"with the extra differential oracle that the second attribute renders exactly as in the document that has only it. " +
+			"html|md/direct/raw-text-lookalikes = 31 near-miss end tags and openers (</scriptx>, </script with no >, </script\\n>, </script/>, </SCRIPT>, </ScRiPt >, </styles>, </textareas>, <scriptx>, --!>, <!-->, <![CDATA[, ...) placed in script and style text as code, in a string of each kind, in a comment of each kind, in url(), " +
+			"then the hole LATER IN THE SAME ELEMENT in code or in a string; plus comment/CDATA/RCDATA look-alikes in HTML content before an element opener; whether the look-alike ends the element is decided by the reference tokenizer. " +
+			"html|md/direct/two-shows = two shows on one line ({{ v }}{{ u }}, separated by nothing, a space, text) in every position (Markdown: indented code by spaces and by tab, first and later lines, fenced code and its info string, paragraph, list items, blockquote, heading, link text/destination/title, inline code, bare URL, HTML attribute and block; " +
+			"HTML: text, textarea, comment, attributes of each quoting, URL/srcset attributes, tag, script string/code/comment, JSON, style string/code); the hole is the first show (the second shows a benign value) or the second (the first shows one of 12 fixed values ending or starting with newline(s), space, tab, backslash, quote, <, backquote); " +
+			"payloads there also include values with a separator at ONE end (z\\n, \\nz, z\\n\\n, ' z', 'z ', z\\t, z\\, z\", z', z<, z`); extra oracle: what follows the first value renders as it does after a benign first value. " +
+			"A failure that also happens with the other show replaced by text is reported under the plain key, otherwise under the key + ' two-shows ...'. " +
 			"Each document is built once per value type and run with the benign value and with the payload (bare, and as z+payload+z for the separators newline/space/equals; for every payload in the thorough tier except html/direct/string). " +
 			"Non-trivial = the template builds and the benign rendering holds the value in exactly one reference token (and, in JavaScript, no lexical error precedes it), so the payload rendering is really compared token by token; the other cases are classes skipped:*",
 		Assumptions: []string{
